@@ -103,7 +103,30 @@ impl InlineParser {
 
             if state.level < state.md.max_nesting {
                 for rule in self.ruler.iter() {
+                    #[cfg(markdown_it_verif)]
+                    let probe = if crate::verif::probe_on() {
+                        crate::verif::probe_call();
+                        let children = state.node.children.len();
+                        let pos = state.pos;
+                        let verdict = rule(state, true);
+                        if state.node.children.len() != children || state.pos != pos {
+                            crate::verif::probe_record(format!("inline look-ahead at {} changed the state", pos));
+                        }
+                        Some((pos, verdict))
+                    } else { None };
+
                     ok = rule(state, false);
+
+                    #[cfg(markdown_it_verif)]
+                    if let Some((pos, Some(len))) = probe {
+                        match ok {
+                            Some(real) if state.pos + real == pos + len => {}
+                            _ => crate::verif::probe_record(format!(
+                                "inline look-ahead at {} reported extent {} but the real call gave {:?} (pos {})",
+                                pos, len, ok, state.pos)),
+                        }
+                    }
+
                     if ok.is_some() {
                         break;
                     }
